@@ -312,6 +312,19 @@ def run(ctx):
                         keys.add(k)
                         nontrivial += 1
         ctx.validate('TraceC04', scs, jvms=8)
+    if ctx.tier == 'thorough':
+        # every DOF numbering the repository's own tests build on a small mesh, judged by the same clauses
+        from .. import suite
+        evs = suite.record(ctx, files=['tests/test_basis.py', 'tests/test_dofs.py', 'tests/test_assembly.py',
+                                       'tests/test_elements.py', 'tests/test_utils.py'])['dofs']
+        # precondition of the statement as this check reads it (see assumptions): no point that belongs to no cell --
+        # the multi-mesh tests (m1 @ m2) build bases on meshes with such points, their DOFs are unused by construction
+        full = [e for e in evs if {v for c in e['t'] for v in c} == set(range(1, e['nv'] + 1))]
+        ctx.notes['suite_numberings_skipped_unused_vertices'] = len(evs) - len(full)
+        scs = [{'id': f'C04-suite-{k}', 'recipe': {'driver': 'suite', 'test': e.pop('test', ''), 'elem': e.pop('elem', '')},
+                'tags': {'family': 'suite'}, 'events': [e]} for k, e in enumerate(full)]
+        ctx.validate('TraceC04', scs, jvms=8)
+        ctx.notes['scenarios_from_repository_tests'] = len(scs)
     ctx.notes['distinct_nontrivial'] = nontrivial
     ctx.notes['scenarios_from_tlc_universe'] = n_tlc
     ctx.notes['facet_matrix_scenarios_without_facet_basis'] = dropped
@@ -331,6 +344,10 @@ def replay(ctx, doc):
     sc = doc['scenario']
     if sc.get('recipe', {}).get('driver') == 'model':
         ctx.model_must_hold('MC_C04', 'MC_C04.cfg', env={'OUT_FILE': '', 'TIER': ctx.tier}, timeout=1500)
+        return ctx.finish(rule=RULE)
+    if sc.get('recipe', {}).get('driver') == 'suite':
+        # recorded from a repository test: the recorded event itself is re-validated (the test is named in the recipe)
+        ctx.validate('TraceC04', [sc])
         return ctx.finish(rule=RULE)
     ctx.validate('TraceC04', [scenario(sc['id'], sc['recipe'])])
     return ctx.finish(rule=RULE)
